@@ -822,5 +822,6 @@ func main() {
 		// as the write handler does: the batch goes back to the pool, the next request reuses its rows
 		batch.Release()
 	}
+	channelDelivery(out, r, 4)
 	out.Finish()
 }
